@@ -360,6 +360,7 @@ def run(ctx):
     ctx.cov["evaluations"] = len(evs)
     ok = [e for e in evs if e["rc"] == 0]
     ctx.cov["runs_accepted_by_uncrustify"] = len(ok)
+    ctx.cov["refused_which"] = sorted({e["id"] for e in evs if e["rc"] != 0})[:20]
     tp = os.path.join(ctx.work.path, "c20.ndjson")
     write_ndjson(tp, evs)
     rt = tlc_retry("BlankLinesTrace", "BlankLinesTrace", env={"TRACE": tp}, workers=1, timeout=1800)
